@@ -90,7 +90,10 @@ pub(super) fn collect_used_type_params(ty: &Type, used: &mut HashSet<String>) {
 
 /// Extract and process zlink attributes from a list of attributes.
 /// Returns the processed value and removes the attributes from the list.
-pub(super) fn extract_zlink_attrs<T, F>(attrs: &mut Vec<Attribute>, processor: F) -> Option<T>
+pub(super) fn extract_zlink_attrs<T, F>(
+    attrs: &mut Vec<Attribute>,
+    processor: F,
+) -> Result<Option<T>, Error>
 where
     F: FnOnce(Punctuated<Meta, syn::Token![,]>) -> Result<T, Error>,
 {
@@ -122,10 +125,9 @@ where
     }
 
     // Process the found meta items if any
-    let result = if let Some(meta_items) = meta_items_to_process {
-        processor(meta_items).ok()
-    } else {
-        None
+    let result = match meta_items_to_process {
+        Some(meta_items) => Some(processor(meta_items)?),
+        None => None,
     };
 
     // Remove the zlink attributes we processed (in reverse order to preserve indices)
@@ -133,7 +135,7 @@ where
         attrs.remove(index);
     }
 
-    result
+    Ok(result)
 }
 
 /// Parse a rename value from an expression.
@@ -178,7 +180,7 @@ pub(super) fn extract_param_rename_attr(
         }
 
         Ok(rename_value)
-    });
+    })?;
     Ok(rename_result.unwrap_or(None))
 }
 
